@@ -696,8 +696,8 @@ func c09RandBlocks(r *hx.Rng, k int) []c09Blk {
 		blocks := []c09Blk{
 			{c09S("/" + strings.TrimPrefix(base, "/")), []c09Form{{false, "http", "localhost", b}, {false, "https", "h.test", b}, {false, "http", "localhost", "/zz"}, {true, "http", "localhost", b}}},
 			{c09S("http://api.test" + base), []c09Form{{true, "http", "api.test", b}, {true, "https", "api.test", b}, {true, "http", "other.test", b}, {false, "http", "api.test", b}}},
-			{c09S("https://{env}.api.test"+base, c09V("env", "prod", envs...)), []c09Form{{true, "https", "prod.api.test", b}, {true, "https", "dev.api.test", b}, {true, "https", "qa.api.test", b}, {true, "https", "api.test", b}}},
-			{c09S("https://{tenant}.api.test:{port}"+base, c09V("tenant", "acme"), c09V("port", "8443", "8443", "443")), []c09Form{{true, "https", "acme.api.test:8443", b}, {true, "https", "other.api.test:8443", b}, {true, "https", "acme.api.test", b}}},
+			{c09S("https://{env}.api.test"+base, c09V("env", "prod", envs...)), []c09Form{{true, "https", "prod.api.test", b}, {true, "https", "dev.api.test", b}, {true, "https", "qa.api.test", b}, {true, "https", "api.test", b}, {true, "https", "a.b.api.test", b}}},
+			{c09S("https://{tenant}.api.test:{port}"+base, c09V("tenant", "acme"), c09V("port", "8443", "8443", "443")), []c09Form{{true, "https", "acme.api.test:8443", b}, {true, "https", "other.api.test:8443", b}, {true, "https", "acme.api.test", b}, {true, "https", "x.y.api.test:8443", b}}},
 			{c09S("https://api.test/{ver}"+base, c09V("ver", "v1", "v1", "v2")), []c09Form{{true, "https", "api.test", "/v1" + b}, {true, "https", "api.test", "/v2" + b}, {true, "https", "api.test", "/v9" + b}, {true, "https", "api.test", b}}},
 			{c09S("{scheme}://api.test"+base, c09V("scheme", "https", "https", "http")), []c09Form{{true, "https", "api.test", b}, {true, "http", "api.test", b}, {true, "ws", "api.test", b}}},
 		}
